@@ -1236,7 +1236,8 @@ class Timezone(Component):
                 transition + (is_dst,) for transition in component_transitions
             )
 
-        transitions.sort()
+        # in the order in which they happen: DTSTART is local to TZOFFSETFROM
+        transitions.sort(key=lambda transition: (transition[0] - transition[1], transition))
         transition_times = [
             transtime - osfrom for transtime, osfrom, _, _, _ in transitions
         ]
